@@ -150,7 +150,9 @@ CHECKS = {
              "source+replicas is exactly the known node list, failure only after maxRetries+1 rounds and exactly the expected back-off, receiver state unchanged.",
         note="trusts testing/synctest's fake clock (A1); the fake connection implements redigo.Conn directly (no network layer involved in this property)",
         rule="case = one complete sequence of probe answers; states = distinct answer sequences; transitions = probes; non-trivial = every completed execution (each is judged against the expected outcome)",
-        parts=[dict(pkg="./redis-shake/dbSync/slotsupervisor", harness=["slotsupervisor"], test="^TestVerif_C20$", shards=16, budget=dict(quick=60, thorough=900))],
+        parts=[dict(pkg="./redis-shake/dbSync/slotsupervisor", harness=["slotsupervisor"], test="^TestVerif_C20$", shards=16, budget=dict(quick=60, thorough=900)),
+               # the same discovery through the real connection factory (dial, AUTH, INFO over a connection)
+               dict(pkg="./redis-shake/dbSync/slotsupervisor", harness=["slotsupervisor"], test="^TestVerif_C20F$", shards=1, budget=dict(quick=60, thorough=120))],
     ),
     "C09": dict(
         level="model_checking",
